@@ -381,6 +381,65 @@ def rule_num(ctx):
     else:
         raise AnalysisError('Number.compile: conversion not recognised (%s)' %
                             sorted(convs))
+    # int() of text has a second failure mode that float() has not: beyond
+    # sys.int_max_str_digits (4300) it raises ValueError whatever the text
+    # looks like.  The literal's digit run is unbounded, so every int() of it
+    # needs a ValueError handler (the float() fallback)
+    import re._constants as _c
+
+    def unbounded(sp):
+        for op, av in sp:
+            if op in (_c.MAX_REPEAT, _c.MIN_REPEAT,
+                      getattr(_c, 'POSSESSIVE_REPEAT', None)):
+                lo, hi, body = av
+                if hi == _c.MAXREPEAT and any(
+                        (rx.charset(b) or set()) & set('0123456789')
+                        for b in body):
+                    return True
+                if unbounded(body):
+                    return True
+            elif op is _c.SUBPATTERN:
+                if unbounded(av[3]):
+                    return True
+            elif op is _c.BRANCH:
+                if any(unbounded(x) for x in av[1]):
+                    return True
+            elif op in (getattr(_c, 'ATOMIC_GROUP', None),):
+                if unbounded(av):
+                    return True
+        return False
+
+    if any(unbounded(sgrp) for sgrp in r.groups_named('name')):
+        ints = [n for n in own_nodes(comp) if isinstance(n, ast.Call)
+                and isinstance(n.func, ast.Name) and n.func.id == 'int']
+        for c in ints:
+            rr.instances += 1
+            guarded = False
+            for t in own_nodes(comp):
+                if isinstance(t, ast.Try) and any(
+                        x is c for s_ in t.body for x in ast.walk(s_)):
+                    for h in t.handlers:
+                        names = {norm_src(e) for e in (
+                            h.type.elts if isinstance(h.type, ast.Tuple)
+                            else [h.type])} if h.type is not None else {
+                            'BaseException'}
+                        if names & {'ValueError', 'Exception', 'BaseException'}:
+                            guarded = True
+            if guarded:
+                rr.ok('`%s` sits in a try that catches ValueError (digit-count '
+                      'limit of int(), non-integer forms)' % norm_src(c),
+                      '%s:%d' % (comp.module.rel, c.lineno))
+            else:
+                rr.fail(key_of(comp, 'int() of the literal without ValueError '
+                                     'handler'),
+                        'Number.compile calls `%s` outside any handler for '
+                        'ValueError. The Number regex puts no bound on the '
+                        'digit run and int() refuses text longer than '
+                        'sys.int_max_str_digits (4300 digits) with ValueError, '
+                        'whatever test precedes it: that exception leaves the '
+                        'parser (float() of the same text has no such limit)'
+                        % norm_src(c), file=comp.module.rel,
+                        function=comp.qualname, line=c.lineno)
     rr.note('%d numeric forms enumerated, e.g. %s' % (len(numeric), numeric[:6]))
     return rr
 
